@@ -133,10 +133,10 @@ def environ(method='POST', path='/', query='', body=b'', content_type='text/xml;
     return env
 
 
-def call_wsgi(wapp, env, abort_after=None):
+def call_wsgi(wapp, env, abort_after=None, trace=None):
     """Call the WSGI callable, iterate the result (optionally aborting after k chunks), close it."""
     o = Outcome()
-    o.trace = []
+    o.trace = trace if trace is not None else []
     started = []
 
     def start_response(status, headers, exc_info=None):
